@@ -181,6 +181,9 @@ def configs(m):
          ("table", "footnotes"), True),
         ("ast-rst", m.create_markdown(renderer=None, plugins=["def_list", "task_lists", RSTDirective([Admonition(), Image(), Figure()])]),
          ("def_list", "task_lists"), True),
+        # custom fence characters are a separate entry point of the directive parser
+        ("ast-colon", m.create_markdown(renderer=None, plugins=["table", "spoiler", FencedDirective([Admonition(), Image(), Figure()], ":")]),
+         ("table", "spoiler"), True),
     ]
 
 
@@ -236,7 +239,15 @@ def oracle(ctx, extra):
             # nesting pumps around the limit
             depth = r.randint(4, 9)
             doc = "".join(r.choice(["> ", "- ", "1. ", "* "]) for _ in range(depth)) + r.choice(["x", "-", "# h", "[a]: /u", "```\nc\n```", "| a |\n|-|\n"]) + "\n"
-            if r.random() < 0.3:
+            if r.random() < 0.25:
+                # a directive (either fence style) at the bottom of a stack of quotes, holding containers again
+                pre = "> " * r.choice([5, 6, 6, 7])
+                fence = r.choice([":::", "::::", "```", "~~~~"])
+                # under the configuration that knows this fence style
+                name, md, plugins, directives = cfgs[5] if fence[0] == ":" else cfgs[3]
+                body = [r.choice(["> inner", "- inner", "1. inner", "> - inner"]), r.choice(["text", "> more", fence[0] * (len(fence) - 1) + "x"])]
+                doc = "".join(pre + l + "\n" for l in [fence + "{note} T"] + body + [fence])
+            elif r.random() < 0.3:
                 # staircase of lone markers below it (each line a continuation of the item above)
                 mark, step = r.choice(["-", "+", "*", "1.", "=", "- x", ">"]), r.choice([2, 3])
                 doc = "".join("> " * r.choice([0, 0, 3, 5]) + " " * (step * i) + mark + "\n" for i in range(r.randint(3, 12)))
@@ -253,8 +264,8 @@ def oracle(ctx, extra):
     fails = [f for f in fails if not f.get("class")] + known[:3]
     return {"evaluations": n, "distinct_nontrivial": len(seen), "failures": fails, "known_finding_instances": len(known),
             "rule": "55% generated documents, 15% interrupt/lazy fragments, 10% container pumps of depth 4-9 ending in various "
-                    "blocks or indentation staircases of lone markers, 10% mutated, 10% noise; 5 configurations with renderer=None (core, all plugins, all+speedup+hardwrap, "
-                    "fenced directives, RST directives); token list validated against the grammar and json.dumps; distinct by text",
+                    "blocks, directives holding containers, or indentation staircases of lone markers, 10% mutated, 10% noise; 6 configurations with renderer=None (core, all plugins, all+speedup+hardwrap, "
+                    "fenced directives, RST directives, colon-fenced directives); token list validated against the grammar and json.dumps; distinct by text",
             "samples": [json.dumps(gen_docs.doc(ctx.rng('s'), plugins=gen_docs.ALL_PLUGINS))[:300]]}
 
 
